@@ -113,6 +113,25 @@ pub fn check(c: &Case, obs: &mut Obs) -> Result<(), String> {
                         ));
                     }
                 }
+                // bounds that carry no revision at all: the name's revision r decides
+                // (not when the text before the last nb holds a revision of its own)
+                let plain_x = !x.to_ascii_lowercase().contains("nb");
+                for (pat, want) in if !plain_x { vec![] } else { vec![
+                    (format!("{}>={}", base, x), true),
+                    (format!("{}<={}", base, x), r == 0),
+                    (format!("{}>{}", base, x), r > 0),
+                    (format!("{}<{}", base, x), false),
+                    (format!("{}<={}nb0", base, x), r == 0),
+                ] } {
+                    let got = matches(&pat, n)?;
+                    obs.verdicts += 1;
+                    if got != want {
+                        return Err(format!(
+                            "{:?} reports PKGREVISION {} but pattern {:?} (a bound without revision) matches = {} (expected {})",
+                            n, r, pat, got, want
+                        ));
+                    }
+                }
                 if r > 0 {
                     let pat = format!("{}>{}nb{}", base, x, r - 1);
                     if !matches(&pat, n)? {
